@@ -32,6 +32,69 @@ import (
 
 const quietMs = 40
 
+// One session.Opts value (message builders, tags, error codes) serves every session of the process, as it does in an
+// application whose acceptor creates a session per connection from one configuration.
+var (
+	optsMu    sync.Mutex
+	optsCache = map[string]*session.Opts{}
+)
+
+type sharedAcc struct {
+	mu    sync.Mutex // serialises connection set-up
+	addr  string
+	onNew func(simplefixgo.AcceptorHandler)
+	acc   *simplefixgo.Acceptor
+	l     net.Listener
+}
+
+var (
+	accMu  sync.Mutex
+	accMap = map[int]*sharedAcc{}
+)
+
+func sharedAcceptor(buf int) *sharedAcc {
+	accMu.Lock()
+	defer accMu.Unlock()
+	if a, ok := accMap[buf]; ok {
+		return a
+	}
+	l, err := net.Listen("tcp", "127.0.0.1:0")
+	if err != nil {
+		panic(err)
+	}
+	a := &sharedAcc{addr: l.Addr().String(), l: l}
+	a.acc = simplefixgo.NewAcceptor(l, simplefixgo.NewAcceptorHandlerFactory(fixgen.FieldMsgType, buf), 2*time.Second,
+		func(h simplefixgo.AcceptorHandler) { a.onNew(h) })
+	go func() { _ = a.acc.ListenAndServe() }()
+	accMap[buf] = a
+	return a
+}
+
+func closeSharedAcceptors() {
+	accMu.Lock()
+	defer accMu.Unlock()
+	for k, a := range accMap {
+		a.acc.Close()
+		a.l.Close()
+		delete(accMap, k)
+	}
+}
+
+func sharedOpts(allowed []string) *session.Opts {
+	key := ""
+	for _, a := range allowed {
+		key += a + ","
+	}
+	optsMu.Lock()
+	defer optsMu.Unlock()
+	if o, ok := optsCache[key]; ok {
+		return o
+	}
+	o := sess.Opts(allowed)
+	optsCache[key] = o
+	return o
+}
+
 type wireRig struct {
 	sc    *sess.Scenario
 	start time.Time
@@ -84,15 +147,15 @@ func (w *wireRig) open() error {
 	if allowed == nil {
 		allowed = []string{"0"}
 	}
-	l, err := net.Listen("tcp", "127.0.0.1:0")
-	if err != nil {
-		return err
-	}
 	if cfg.Role == "acceptor" {
+		// ONE acceptor (per handler buffer size) serves the connections of all scenarios, as a server does; the set-up of a
+		// connection (dial, callback) is serialised so that the callback knows which scenario it is creating the session for
+		sa := sharedAcceptor(cfg.Buf)
+		sa.mu.Lock()
+		defer sa.mu.Unlock()
 		ready := make(chan error, 1)
-		factory := simplefixgo.NewAcceptorHandlerFactory(fixgen.FieldMsgType, cfg.Buf)
-		acceptor := simplefixgo.NewAcceptor(l, factory, 2*time.Second, func(h simplefixgo.AcceptorHandler) {
-			s, err := session.NewAcceptorSession(sess.Opts(allowed), h, &session.LogonSettings{
+		sa.onNew = func(h simplefixgo.AcceptorHandler) {
+			s, err := session.NewAcceptorSession(sharedOpts(allowed), h, &session.LogonSettings{
 				LogonTimeout:  30 * time.Second,
 				CloseTimeout:  time.Duration(cfg.CloseMs) * time.Millisecond,
 				HeartBtLimits: &session.IntLimits{Min: cfg.HbMin, Max: cfg.HbMax},
@@ -114,10 +177,8 @@ func (w *wireRig) open() error {
 			w.watch(s, dh)
 			w.S, w.H = s, dh
 			ready <- s.Run()
-		})
-		go func() { _ = acceptor.ListenAndServe() }()
-		w.stop = append(w.stop, acceptor.Close, func() { l.Close() })
-		c, err := net.Dial("tcp", l.Addr().String())
+		}
+		c, err := net.Dial("tcp", sa.addr)
 		if err != nil {
 			return err
 		}
@@ -128,6 +189,10 @@ func (w *wireRig) open() error {
 		case <-time.After(3 * time.Second):
 			return errors.New("acceptor did not call back")
 		}
+	}
+	l, err := net.Listen("tcp", "127.0.0.1:0")
+	if err != nil {
+		return err
 	}
 	// initiator: the raw peer listens
 	defer l.Close()
@@ -149,7 +214,7 @@ func (w *wireRig) open() error {
 	}
 	h := simplefixgo.NewInitiatorHandler(context.Background(), fixgen.FieldMsgType, cfg.Buf)
 	ini := simplefixgo.NewInitiator(conn, h, cfg.Buf, 2*time.Second)
-	s, err := session.NewInitiatorSession(h, sess.Opts(allowed), &session.LogonSettings{
+	s, err := session.NewInitiatorSession(h, sharedOpts(allowed), &session.LogonSettings{
 		TargetCompID: "PEER", SenderCompID: "SRV",
 		HeartBtInt: cfg.HbCfg, EncryptMethod: cfg.EncCfg, Username: "user", Password: "good",
 		CloseTimeout: time.Duration(cfg.CloseMs) * time.Millisecond,
@@ -296,6 +361,7 @@ func TestWireSess(t *testing.T) {
 		}()
 	}
 	wg.Wait()
+	closeSharedAcceptors()
 	f, err := os.Create(filepath.Join(outDir, "wiresess.ndjson"))
 	if err != nil {
 		t.Fatal(err)
